@@ -39,6 +39,9 @@ STUBS = {
     "invalid_utf8": "#!/bin/sh\ncat >/dev/null\nprintf 'pub fn x() {} \\377\\376'\nexit 0\n",
     "slow": "#!/bin/sh\nsleep 0.4\nexec %s \"$@\"\n",
     "exit0_without_reading": "#!/bin/sh\nexit 0\n",
+    "killed_after_partial_output": "#!/bin/sh\nhead -c 300\ncat >/dev/null\nkill -9 $$\n",
+    "exit1_after_partial_output": "#!/bin/sh\nhead -c 300\ncat >/dev/null\nexit 1\n",
+    "killed_partial_without_reading_all": "#!/bin/sh\nhead -c 300\nkill -9 $$\n",
 }
 # model outcome per fault: (constructor term for small output, for big output), expected use_formatted
 MODEL = {
@@ -53,6 +56,9 @@ MODEL = {
     "invalid_utf8": ("Ran WOk Exit0 false false",) * 2,
     "slow": ("Ran WOk Exit0 true false",) * 2,
     "exit0_without_reading": ("Ran WOk Exit0 true true", "Ran WErr Exit0 true true"),
+    "killed_after_partial_output": ("Ran WOk Signal true false",) * 2,
+    "exit1_after_partial_output": ("Ran WOk ExitN true false",) * 2,
+    "killed_partial_without_reading_all": ("Ran WOk Signal true false", "Ran WErr Signal true false"),
 }
 
 
